@@ -195,6 +195,16 @@ def run(chk, replay=None):
             add('events', name, base, perm_ev, not analytic, True, True, {'id': t, 'shape': [nc, nb], 'events': events[:8], 'perm': p_ev[:12],
                                                                            'same_catalog_object_evaluated_before': t % 2 == 0})
             add('cells', name, base, perm_cell, False, analytic, False, {'id': t, 'shape': [nc, nb], 'events': events[:8], 'perm': p_cell, 'via_file': t % 2 == 1})
+            if 'paired_t_test' in name or 'w_test' in name:
+                # only ONE of the two forecasts of a comparison lists its cells (with their rates) in another order - the two were
+                # loaded from files with different row orders
+                one = guarded_timeout(30, fn, fa, fb_p, gridded_catalog(org, events, ident, fa.region, mags))
+                other = guarded_timeout(30, fn, fa_p, fb, gridded_catalog(org, events, ident, fa_p.region, mags))
+                chk.count(2)
+                add('cells', name + '[benchmark only]', base, one, False, analytic, False,
+                    {'id': t, 'shape': [nc, nb], 'events': events[:8], 'perm': p_cell, 'which': 'benchmark forecast only', 'via_file': t % 2 == 1})
+                add('cells', name + '[first forecast only]', base, other, False, analytic, False,
+                    {'id': t, 'shape': [nc, nb], 'events': events[:8], 'perm': p_cell, 'which': 'first forecast only', 'via_file': t % 2 == 1})
 
     # ---------------------------------------------------------------- gridded tests on quadtree regions (cells re-ordered)
     import mercantile
